@@ -20,7 +20,7 @@ reference interpreter of the statement (each reply action either writes exactly 
 continues:true iff the flag is set, or - flag set without `more` - fails with an error and writes nothing). \
 client: scripted fake server sends k in 0..32 `continues` replies with arbitrary parameters, then a result or \
 an error (standard or custom), then serves further calls; more() must yield exactly those k values, then the \
-final outcome, then end; both connection slots are back and the next call gets its own reply. Non-trivial: \
+final outcome, then end; both connection slots are back and the next call gets its own reply. Client streams also contain error replies carrying continues:true (yielded as error items, the stream goes on). Non-trivial: \
 server script contains a reply while continues is set and the request has no `more`; client stream ends in an \
 error, has k = 0, or is followed by another call; distinct by (script, flags) / (k, final, follow-up).";
 
